@@ -21,7 +21,7 @@ namespace NemoVerif.Shared
 open NemoVerif.Serialize NemoVerif.Refs
 
 inductive Scalar where
-  | none | bool (b : Bool) | int (i : Int) | flt (m : Int) (e : Nat) | str (s : String)
+  | none | bool (b : Bool) | int (i : Int) | flt (f : Flt) | str (s : String)
   deriving DecidableEq, Repr, Inhabited
 
 inductive Tag where
@@ -40,10 +40,10 @@ abbrev CV := Lab Scalar Tag
 abbrev CE := Enc Scalar Tag
 
 def Scalar.toJ : Scalar → J
-  | .none => .null | .bool b => .bool b | .int i => .int i | .flt m e => .flt m e | .str s => .str s
+  | .none => .null | .bool b => .bool b | .int i => .int i | .flt f => .flt f | .str s => .str s
 
 def scalarOfJ : J → Option Scalar
-  | .null => some .none | .bool b => some (.bool b) | .int i => some (.int i) | .flt m e => some (.flt m e)
+  | .null => some .none | .bool b => some (.bool b) | .int i => some (.int i) | .flt f => some (.flt f)
   | .str s => some (.str s) | _ => none
 
 def zipKeys : List String → List J → List (String × J)
@@ -131,7 +131,7 @@ def decodeC : Tbl → J → Option (CV × Tbl)
   | tbl, .null => some (.leaf .none, tbl)
   | tbl, .bool b => some (.leaf (.bool b), tbl)
   | tbl, .int i => some (.leaf (.int i), tbl)
-  | tbl, .flt m e => some (.leaf (.flt m e), tbl)
+  | tbl, .flt f => some (.leaf (.flt f), tbl)
   | tbl, .str s => some (.leaf (.str s), tbl)
   | tbl, .arr js =>
     -- `_is_shared_list(d)`: the array is the marked encoding of a registered list (its single element is decoded by
